@@ -217,8 +217,12 @@ class Request(HTTPConnection):
 
         This can always be called, regardless of whether you use form or not.
         """
-        if "form" in self.__dict__ and self.__dict__["form"].done():
-            await (await self.form).aclose()
+        if "form" in self.__dict__:
+            form = self.__dict__["form"]
+            # A form that failed to parse has nothing to close; do not
+            # raise its exception again from here.
+            if form.done() and not form.cancelled() and form.exception() is None:
+                await form.result().aclose()
 
     async def is_disconnected(self) -> bool:
         """
